@@ -920,7 +920,7 @@ def sc8(p, res, pairs):
     T = SCR_T + ("to_ref", "to_mut")
     n = 0
     for uid in sorted(pairs):
-        if uid not in frozen or frozen[uid]["verdict"] != "covered":
+        if os.environ.get("PZ_SC8_ALL") != "1" and (uid not in frozen or frozen[uid]["verdict"] != "covered"):
             continue
         f, comp, corr, how = pairs[uid]
         flow = Flow(f, transparent=T)
